@@ -590,6 +590,17 @@ def _static_len(t, depth=0, f=None):
     if t[0] == "param" and f is not None:
         m = re.match(r"&(?:mut )?\[[^;\]]+; (\d+)\]$", f.local_ty(t[1]))
         return int(m.group(1)) if m else None
+    if t[0] == "field" and f is not None and strip(t[1]) == ("param", 1) and getattr(f, "program", None) is not None:
+        # a fixed-size array field of self
+        a = f.program.adts.get(f.self_ty.split("<")[0])
+        for v in (a["variants"] if a else []):
+            for fld in v["fields"]:
+                if fld["name"] == t[2]:
+                    if fld.get("array_len", -1) >= 0:
+                        return fld["array_len"]
+                    m = re.match(r"\[[^;\]]+; (\d+)\]$", fld["ty"])
+                    if m:
+                        return int(m.group(1))
     if t[0] == "field" and t[2] in ("0", "1"):
         k = _chunk_len(t)
         if k is not None:
